@@ -3,7 +3,7 @@
    holds for EVERY agent state.  The quiescent two-agent agreement is checked on the two-agent
    harness (suite "pair") and stated for the two-agent model in Props/C01.v. *)
 From Coq Require Import ZArith Bool List.
-From Ice Require Import Model.AgentTypes Model.AgentCore Gen.Consts Proofs.AgentFrame Proofs.AgentC20.
+From Ice Require Import Model.AgentTypes Model.AgentCore Gen.Consts Proofs.AgentFrame Proofs.AgentC02 Proofs.AgentC20 Proofs.AgentEnds Proofs.AgentC20Hist.
 Import ListNotations.
 Local Open Scope Z_scope.
 
@@ -95,3 +95,50 @@ Example C20_example :
   s_selected (fst (step cfg s (req 2000004 lo true (Some 2) 1000))) = Some 2 /\
   s_selected (fst (step cfg s (req 2000004 lo true (Some 1) 1000))) = Some 1.
 Proof. vm_compute. repeat split. Qed.
+
+(* ---- over histories ("in whatever order the requests arrive") --------------------------------------------------------
+   [nom_rel R C s s']: the remembered value is unchanged, or it is now a value v, strictly greater than the one
+   remembered in s (any value when none was), with C v -- or R.  One operation, from EVERY state: R = the operation
+   (re)starts the selector (Start, Restart, a request carrying the receiver's own role, which may make it switch role);
+   C v = the operation delivered a Binding request carrying nomination value v, authentic, to a controlled agent.
+   No API call, tick, response, indication or data packet changes the value. *)
+Theorem C20_nomination_value_step : forall cfg s o,
+  nom_rel (restarts_selector s o) (accepted_value s o) s (fst (step cfg s o)).
+Proof. exact step_nomination_value. Qed.
+Print Assumptions C20_nomination_value_step.
+
+(* any stretch of any history without a selector restart: the remembered value is what it was at the start of the
+   stretch or a strictly greater value that one of the delivered Binding requests carried ... *)
+Theorem C20_accepted_values_only_increase : forall cfg ops s, no_restart cfg s ops ->
+  s_last_nom (runs cfg s ops) = s_last_nom s \/
+  exists v, s_last_nom (runs cfg s ops) = Some v /\ nomination_fresh s v = true /\ value_of_request_in ops v.
+Proof. exact accepted_values_only_increase. Qed.
+Print Assumptions C20_accepted_values_only_increase.
+
+(* ... hence a later state never remembers a smaller value than an earlier one (so, with C20_acceptance_rule, a value
+   is accepted only if it exceeds EVERY value accepted before it in the stretch) *)
+Theorem C20_last_nomination_monotone : forall cfg a b s,
+  no_restart cfg s (a ++ b) -> nom_le (s_last_nom (runs cfg s a)) (s_last_nom (runs cfg s (a ++ b))).
+Proof. exact last_nomination_monotone. Qed.
+Print Assumptions C20_last_nomination_monotone.
+
+(* non-vacuity: from the state of C20_example (value 1 accepted), values 3, 2, a tick, 7, 7 arrive: accepted 3, -, -, 7, - *)
+Module C20_example_history.
+  Definition cfg := mkConfig false 5 7 5000000000 false 25000000000 0 0 0 0 0 [] true false 1.
+  Definition l := mkCand 1 1 1 (mkAddr false 167772161 5000) 0 2130706431 1 None.
+  Definition hi := mkAddr false 3232235777 6000.
+  Definition lo := mkAddr false 3232235778 6001.
+  Definition req tx src use nom prio := InStun 1 src (mkMsg 0 1 tx (Some (1, 3)) (Some 1) use (Some (true, 9)) (Some prio) nom None None).
+  Definition resp tx src := InStun 1 src (mkMsg 2 1 tx None (Some 4) false None None None None None).
+  Definition s := fst (run cfg 1 1 [AddLocal l; Start false 3 4;
+                 req 2000001 hi false None 2000; resp 1 hi; req 2000002 lo false None 1000; resp 2 lo;
+                 req 2000003 hi true (Some 1) 2000]).
+  Definition ops := [req 2000004 lo true (Some 3) 1000; req 2000005 hi true (Some 2) 2000; Tick; req 2000006 hi true (Some 7) 2000; req 2000007 lo true (Some 7) 1000].
+  Example hypotheses_hold : no_restart cfg s ops.
+  Proof.
+    unfold ops, req; cbn [no_restart restarts_selector]. repeat split; match goal with |- ~ False => intros [] | |- _ => intros [tb H]; vm_compute in H; discriminate H end.
+  Qed.
+  Example values : (s_last_nom s, map (fun n => (s_last_nom (runs cfg s (firstn n ops)), s_selected (runs cfg s (firstn n ops)))) [1; 2; 3; 4; 5]%nat)
+                   = (Some 1, [(Some 3, Some 2); (Some 3, Some 2); (Some 3, Some 2); (Some 7, Some 1); (Some 7, Some 1)]).
+  Proof. vm_compute. reflexivity. Qed.
+End C20_example_history.
